@@ -39,6 +39,8 @@ const N_SHAPES: usize = 24;
 const QNAMES: &[&str] = &[
     "www.example.", "example.", "WwW.ExAmPlE.", "nosuch.example.", "x.wild.example.", "alias.example.", "chain1.example.", "deep.sub.example.", "big.example.",
     "glue.test.", "deleg.glue.test.", "x.deleg.glue.test.", "y.glue.test.", "badns.example.", "badmx.example.", "badcname.example.", "badsrv.example.", "bada.example.", "badsoa.test.", "x.nosoa.test.", "nosoa.test.", "unloaded.test.", "failed.test.", "www.elsewhere.", ".",
+    // owners whose RDATA points *out of the zone* to a name with fewer labels than the apex
+    "up.glue.test.", "root.glue.test.", "mxup.glue.test.", "srvroot.glue.test.", "nsup.glue.test.", "x.nsup.glue.test.", "toroot.example.", "tosib.example.",
 ];
 const QTYPES: &[u16] = &[wire::T_A, wire::T_ANY, wire::T_MX, wire::T_NS, wire::T_SOA, wire::T_TXT, wire::T_CNAME, 33, 252, 251, wire::T_AAAA];
 
@@ -197,6 +199,8 @@ fn rich_zone() -> Arc<quandary::db::HashMapTreeZone> {
         z.add(&format!("chain{i}.example."), wire::T_CNAME, 60, &wire::name_wire(&format!("chain{}.example.", i + 1)));
     }
     z.add("chain9.example.", wire::T_CNAME, 60, &wire::name_wire("chain1.example."));
+    z.add("toroot.example.", wire::T_CNAME, 60, &wire::name_wire("."));
+    z.add("tosib.example.", wire::T_CNAME, 60, &wire::name_wire("www.glue.test."));
     z.add("sub.example.", wire::T_NS, 60, &wire::name_wire("ns.sub.example."));
     z.add("ns.sub.example.", wire::T_A, 60, &[10, 0, 0, 53]);
     for i in 0..40u8 {
@@ -266,6 +270,23 @@ fn glue_zone(variant: u64) -> Arc<quandary::db::HashMapTreeZone> {
         });
         addrs(&mut z, &mx, 8, i, &mut r);
     }
+    // targets outside the zone that are *shorter* than the apex (parent domain, root)
+    z.add("up.glue.test.", wire::T_CNAME, 60, &wire::name_wire("test."));
+    z.add("root.glue.test.", wire::T_CNAME, 60, &wire::name_wire("."));
+    for (pref, t) in [(1u8, "test."), (2, ".")] {
+        z.add("mxup.glue.test.", wire::T_MX, 60, &{
+            let mut v = vec![0, pref];
+            v.extend(wire::name_wire(t));
+            v
+        });
+    }
+    z.add("srvroot.glue.test.", 33, 60, &{
+        let mut v = vec![0, 1, 0, 1, 0, 53];
+        v.extend(wire::name_wire("."));
+        v
+    });
+    z.add("nsup.glue.test.", wire::T_NS, 60, &wire::name_wire("test."));
+    z.add("nsup.glue.test.", wire::T_NS, 60, &wire::name_wire("."));
     for i in 0..(10 + r.below(12)) as u8 {
         let ns = format!("n{i}.{}deleg.glue.test.", if r.below(3) == 0 { "k." } else { "" });
         z.add("deleg.glue.test.", wire::T_NS, 60, &wire::name_wire(&ns));
